@@ -6,7 +6,7 @@
    pfold = the fold of pstep over them (Model/ScriptX.v, proved equal to ploop in Proofs/ScriptFacts.v). *)
 From BS Require Import Model.Base Model.Regex Model.ExprParser Model.Script Model.ScriptX Model.PErr
   Proofs.ScriptFacts Proofs.PErrFacts Proofs.C06 Proofs.C06Cols Proofs.C06Progress Proofs.NumLit Proofs.Total
-  Proofs.ExprFuel Proofs.TotalFuel Proofs.C06Shift.
+  Proofs.ExprFuel Proofs.TotalFuel Proofs.C06Shift Proofs.C06ShiftCont.
 From BS Require Import Model.Num Gen.Unicode Gen.Regexes.
 
 (* ---- (1) accounting: an accepted text leaves nothing open and every logical line was folded exactly once ---- *)
@@ -139,10 +139,28 @@ Theorem C06_step_shift : forall P ps n line, last_is_include P = None -> JInv ps
   pstep (shift_ps P ps) n line = omap (shift_ps P) (pstep ps n line).
 Proof. exact pstep_shift. Qed.
 Print Assumptions C06_step_shift.
-(* C06_shift_partial — what the shift clause still leaves to the oracle: a prefix statement that is itself spread over
-   several physical lines by continuation backslashes, and `include` lines in front (an include line MERGES into a
-   directly following include statement, so "changes nothing else" is false for them); function / block statements are
-   not "simple". *)
+(* the same with prefix statements that are themselves CONTINUED over several physical lines (Proofs/C06ShiftCont.v).
+   gprefix pre P: the line front end turns the physical lines `pre` into complete logical lines (nothing pending at the end
+   of pre), and the TEXT of each logical line is a simple statement (simple_text: classified as assignment / expression
+   statement / label / jump / jumpif / return whose expression parses); P = their statements.  The line numbers move by the
+   number of PHYSICAL lines |pre|.  C06_shift_simple is the special case of one physical line per statement. *)
+Theorem C06_shift_simple_continued : forall pre P lines start, gprefix pre P ->
+  parse_lines (pre ++ lines) start = map_sres (fun n => length pre + n) (fun s => P ++ s) (parse_lines lines start).
+Proof. exact parse_lines_gprefix_shift. Qed.
+Print Assumptions C06_shift_simple_continued.
+
+Theorem C06_shift_simple_continued_script : forall c1 c2 pre P start, split_chunks c1 = ROk pre -> gprefix pre P ->
+  parse_script (c1 ++ c2) start = map_sres (fun n => length pre + n) (fun s => P ++ s) (parse_script c2 start).
+Proof. exact parse_script_gprefix_shift. Qed.
+Print Assumptions C06_shift_simple_continued_script.
+
+Theorem C06_shift_simple_is_continued_case : forall pre P, prefix_stmts pre P -> gprefix pre P.
+Proof. exact prefix_stmts_gprefix. Qed.
+
+(* The shift clause is now proved for comment / blank / simple statement lines (one-line or continued).  Outside the theorem,
+   by design: `include` lines in front (an include line MERGES into a directly following include statement, so "changes
+   nothing else" is false for them — kstep_shift needs a prefix that does not end in an include statement) and function /
+   block statements (not "simple").  The oracle's `shift-*` classes keep checking the clause on the implementation. *)
 
 (* ---- (4) totality: the only host exceptions the model can report ---- *)
 Theorem C06_total_partial : forall chunks start w,
@@ -289,6 +307,15 @@ Proof.
   assert (E : parse_lines [U "if x:"; U "  y = (2 +"; U "endif"] 5 =
               RErr {| e_msg := U "Syntax error"; e_line := U "  y = (2 +"; e_col := 11; e_lineno := Some 6 |}) by (vm_compute; reflexivity).
   rewrite (parse_lines_prefix_err _ _ _ _ _ H E). reflexivity.
+Qed.
+
+Example C06_ex_gprefix : exists P,
+  gprefix [U "x = 1 + \00005c"; U "   # inside"; U "    2"; U "fn(x, \00005c  "; U "  'a')"; U ""] P /\ length P = 2.
+Proof.
+  eexists. split.
+  - eexists. eexists. split; [vm_compute; reflexivity|]. split; [reflexivity|].
+    repeat (constructor; [eexists; split; [vm_compute; reflexivity | reflexivity]|]). constructor.
+  - reflexivity.
 Qed.
 
 Example C06_ex_comment_lines : Forall (fun c => is_comment c = ROk true) [U ""; U "   "; U "  # c \00005c"; U "#"].
